@@ -9,7 +9,7 @@ EXPLANATION = ("is_legal_set_firing, is_superstable, get_out_degree_S, the compa
 def gen(rng, tier):
     out = []
     for _ in range(260 if tier == "quick" else 5000):
-        kind = rng.choice(["legal", "legal", "sstable", "sstable", "order", "parking", "parking", "count"])
+        kind = rng.choice(["legal", "legal", "sstable", "sstable", "order", "order", "order", "parking", "parking", "count"])
         c = {"kind": kind, "s": rng.randrange(1 << 30)}
         if kind in ("legal", "sstable", "order", "count"):
             G, fam = common.random_connected_graph(rng, 2, 5 if kind != "count" else 4)
@@ -28,9 +28,19 @@ def gen(rng, tier):
                 elif r < 0.7: S.insert(rng.randint(0, len(S)), n + 1)
                 c["S"] = S
             if kind == "order":
-                E = list(D)
-                for _ in range(rng.randint(0, 2)): E[rng.randrange(n)] += rng.choice([-1, 1, 1])
-                c.update({"E": E, "q2": q if rng.random() < 0.8 else (q + 1) % n, "other": rng.choice([None, None, None, "mult", "edge", "vset"]) if n >= 2 else None})
+                # the relation between the two configurations is drawn explicitly: equal, below, above, incomparable - and, half of the time, the
+                # chips AT q differ as well (the order looks at V - {q} only)
+                E = list(D); others = [v for v in range(n) if v != q]; rel = rng.choice(["eq", "lt", "gt", "inc", "rand"])
+                if rel == "lt" and others:
+                    for v in rng.sample(others, rng.randint(1, len(others))): E[v] += rng.randint(1, 2)
+                elif rel == "gt" and others:
+                    for v in rng.sample(others, rng.randint(1, len(others))): E[v] -= rng.randint(1, 2)
+                elif rel == "inc" and len(others) >= 2:
+                    a, b = rng.sample(others, 2); E[a] += rng.randint(1, 2); E[b] -= rng.randint(1, 2)
+                elif rel == "rand":
+                    for _ in range(rng.randint(0, 2)): E[rng.randrange(n)] += rng.choice([-1, 1, 1])
+                if rng.random() < (0.8 if rel == "eq" else 0.4): E[q] += rng.choice([-2, -1, 1, 3])
+                c.update({"E": E, "q2": q if rng.random() < 0.8 else (q + 1) % n, "other": rng.choice([None, None, None, None, None, "mult", "edge", "vset"]) if n >= 2 else None})
         elif kind == "parking":
             n = rng.randint(0, 6); a = [rng.randint(0 if rng.random() < 0.2 else 1, n + (1 if rng.random() < 0.2 else 0)) for _ in range(n)]
             if rng.random() < 0.5 and n: a = sorted(rng.randint(1, i + 1) for i in range(n)); rng.shuffle(a)
